@@ -121,6 +121,106 @@ theorem woi_reads_truth_reopen (memcap : Nat) (ops : List HOp) (hok : ∀ op ∈
 end
 end Foyer.Hyb
 
+/-! ### write-on-eviction: restarts with flush-on-close -/
+namespace Foyer.Hyb
+open Foyer
+
+section
+variable {σ : Type} (P : Policy σ) (hc : HCfg) (Ok : σ → Prop) (L : Lawful P Ok) (hn : 0 < hc.mcfg.nshards)
+  (he : hc.woi = false) (ht : hc.tombLog = true) (hf : hc.foc = true) (k : Nat)
+
+/-- what the closing flush has to achieve for `k` (a property of the eviction policy and the weights: `flush`
+evicts down to usage 0): afterwards memory does not hold `k`.  Assumed by `woe_reads_truth_reopen_partial`;
+on the implementation it is what the C15 monitor clause `resident_entry_lost_by_close` checks. -/
+def FlushDrops : Prop :=
+  ∀ c : Cache σ, CacheInv P Ok hc.mcfg c → c.held = [] → Cache.lookup hc.mcfg (Cache.step P hc.mcfg c .flush).1 k = none
+
+def EBR (tr : Option Nat) (s : HState σ) : Prop := EB P hc Ok k tr s ∧ RB hc (hc.mcfg.H k) s
+
+include L hn he ht hf in
+theorem woe_reopen {tr : Option Nat} {s : HState σ} (hfd : FlushDrops P hc Ok k) (h : EBR P hc Ok k tr s) :
+    EInv P hc Ok k tr (stepCore P hc s .reopen).1 ∧ ED hc k tr (stepCore P hc s .reopen).1 ∧
+    (stepCore P hc s .reopen).1.mem.held = [] := by
+  obtain ⟨⟨hev, hed, hq, hkp, hheld⟩, hrb⟩ := h
+  simp only [stepCore, ht, hf, if_true]
+  obtain ⟨e1, d1⟩ := einv_memOp_quiet P hc Ok L hn he k hev hed .flush (by simp only [quietFor])
+    (by intro rid hrid; cases hrid)
+  have b1 := rb_memOp P hc (hc.mcfg.H k) hrb .flush
+  have hl1 : Cache.lookup hc.mcfg (memOp P hc s .flush).1.mem k = none := by
+    rw [memOp_mem]; exact hfd s.mem hev.cinv hheld
+  generalize (memOp P hc s .flush).1 = s1 at e1 d1 b1 hl1
+  have e1' : EInv P hc Ok k tr ({ s1 with held := false, gated := false } : HState σ) :=
+    ⟨e1.cinv, ⟨rfl, rfl, e1.ds.hi, e1.ds.kq, e1.ds.seqok⟩, e1.M, e1.N, e1.Y⟩
+  have d1' : ED hc k tr ({ s1 with held := false, gated := false } : HState σ) := d1
+  have b1' : RB hc (hc.mcfg.H k) ({ s1 with held := false, gated := false } : HState σ) :=
+    ⟨rinv_congr hc _ (s := s1) rfl rfl rfl rfl rfl b1.r, b1.ih, ⟨rfl, rfl, b1.q.hi, b1.q.kq⟩⟩
+  obtain ⟨e2, d2, hq2, _⟩ := einv_flush P hc Ok k e1' d1'
+  obtain ⟨b2, _⟩ := rb_flush hc _ b1' ht
+  have hl2 : Cache.lookup hc.mcfg (flush hc ({ s1 with held := false, gated := false } : HState σ)).mem k = none := by
+    rw [flush_mem]; exact hl1
+  generalize flush hc ({ s1 with held := false, gated := false } : HState σ) = s2 at e2 d2 hq2 b2 hl2
+  have b3 := rb_restarted hc (hc.mcfg.H k) b2 hq2 (Cache.new P hc.mcfg ((s.mem.shards.map (·.cap)).sum))
+  have hview := reopen_view hc (hc.mcfg.H k) b2.r hq2
+  have hln := lookup_new P hc k ((s.mem.shards.map (·.cap)).sum)
+  show EInv P hc Ok k tr (restarted s2 (Cache.new P hc.mcfg ((s.mem.shards.map (·.cap)).sum))) ∧
+       ED hc k tr (restarted s2 (Cache.new P hc.mcfg ((s.mem.shards.map (·.cap)).sum))) ∧ _
+  refine ⟨⟨new_inv L hc.mcfg _, ⟨e2.ds.hh, e2.ds.hg, rfl, fun p hp => (by cases hp), b3.r.seqok⟩, ?_, ?_, ?_⟩, ?_, rfl⟩
+  · intro r hr
+    have : Cache.lookup hc.mcfg (Cache.new P hc.mcfg ((s.mem.shards.map (·.cap)).sum)) k = some r := hr
+    rw [hln] at this; cases this
+  · intro r hr
+    have : Cache.lookup hc.mcfg (Cache.new P hc.mcfg ((s.mem.shards.map (·.cap)).sum)) k = some r := hr
+    rw [hln] at this; cases this
+  · intro r hr
+    have : Cache.lookup hc.mcfg (Cache.new P hc.mcfg ((s.mem.shards.map (·.cap)).sum)) k = some r := hr
+    rw [hln] at this; cases this
+  · intro _ e he' hke
+    have he'' : assocGet (recover s2.disk s2.tombs) (hc.mcfg.H k) = some (.addr e) := he'
+    have h3 : indexAddr (recover s2.disk s2.tombs) (hc.mcfg.H k) = some e := by unfold indexAddr; rw [he'']
+    rw [hview] at h3
+    have hp2 : pview hc s2 (hc.mcfg.H k) = some (.addr e) := by
+      rw [pview_idle hc _ s2 hq2]; exact indexAddr_some h3
+    exact d2 hl2 e hp2 hke
+
+include L hn he ht hf in
+theorem woe_step_r {tr : Option Nat} {s : HState σ} (hfd : FlushDrops P hc Ok k) (h : EBR P hc Ok k tr s) (op : HOp)
+    (hok : okOpR k op) :
+    EBR P hc Ok k (truthStep k tr op (step P hc s op).2) (step P hc s op).1 ∧ readOk k tr op (step P hc s op).2 := by
+  rcases hok with hok | hre
+  · obtain ⟨h1, h2⟩ := woe_step P hc Ok L hn he k h.1 op hok
+    exact ⟨⟨h1, (rb_step P hc _ h.2 ht h.1.2.2.1 op (okOp_quiet hok)).1⟩, h2⟩
+  · have hre := isReopen_eq hre
+    subst hre
+    obtain ⟨w1, w2, w3⟩ := woe_reopen P hc Ok L hn he ht hf k hfd h
+    have b := rb_step P hc (hc.mcfg.H k) h.2 ht h.1.2.2.1 .reopen trivial
+    unfold step at b ⊢
+    simp only [truthStep, readOk, and_true]
+    obtain ⟨f1, f2, f3, f4⟩ := einv_flush P hc Ok k w1 w2
+    exact ⟨⟨f1, f2, f3, f4, by rw [flush_mem]; exact w3⟩, b.1⟩
+
+include L hn he ht hf in
+theorem woe_reads_from_r (hfd : FlushDrops P hc Ok k) : ∀ (ops : List HOp) (tr : Option Nat) (s : HState σ),
+    EBR P hc Ok k tr s → (∀ op ∈ ops, okOpR k op) → readsOk P hc k tr s ops := by
+  intro ops
+  induction ops with
+  | nil => intro _ _ _ _; trivial
+  | cons op ops ih =>
+    intro tr s h hok
+    obtain ⟨h1, h2⟩ := woe_step_r P hc Ok L hn he ht hf k hfd h op (hok op (List.mem_cons_self))
+    exact ⟨h2, ih _ _ h1 (fun o ho => hok o (List.mem_cons_of_mem _ ho))⟩
+
+include L hn he ht hf in
+/-- **C01 / C15 (write-on-eviction with flush-on-close, tombstone log on)** — partial: under the assumption that
+the closing flush takes `k` out of memory (`FlushDrops`), reads observe the latest write across any number of
+graceful restarts.  Everything else (the flushed record reaches the device before close returns, recovery
+shows it, removed keys stay removed) is proved. -/
+theorem woe_reads_truth_reopen_partial (hfd : FlushDrops P hc Ok k) (memcap : Nat) (ops : List HOp)
+    (hok : ∀ op ∈ ops, okOpR k op) : readsOk P hc k none (init P hc memcap) ops :=
+  woe_reads_from_r P hc Ok L hn he ht hf k hfd ops none _ ⟨eb_init P hc Ok L k memcap, rb_init P hc _ memcap⟩ hok
+
+end
+end Foyer.Hyb
+
 /-! ### Non-vacuity -/
 namespace Foyer.Hyb.DemoReopen
 open Foyer Foyer.Hyb
